@@ -121,3 +121,14 @@ Example C08_example_bad_length :
   d_slice (fuel_for bs) p 0 0 bs = Err BadYLen /\
   exists s, s_slice (fuel_for bs) p 0 0 bs = Ok s /\ s_lengths s = [127] /\ s_rest s = [].
 Proof. vm_compute. split; [reflexivity|]. eexists. repeat split; reflexivity. Qed.
+
+(* the hypothesis 0 <= slice_size_scaler of the theorems above cannot be dropped (it holds for every value
+   the stream can carry: read_uint is non-negative): with a negative scaler the validator's bits_left starts
+   negative and never reaches 0, whereas the deserialiser's block is simply empty *)
+Example C08_refuted_for_negative_scaler :
+  exists p sx sy bs d s, sp_size_scaler p < 0 /\ d_slice (fuel_for bs) p sx sy bs = Ok d /\
+                         s_slice (fuel_for bs) p sx sy bs = Ok s /\ s_lengths s <> d_lengths d.
+Proof.
+  exists (mk_case_params [8;4;8;4;1;0;2;1;0;1;232] [0;-1] [[0];[0;0;0]]), 0, 0, (bits_of_bytes [0;1;255;255;0;0]).
+  vm_compute. eexists. eexists. repeat split; try reflexivity. discriminate.
+Qed.
